@@ -81,6 +81,8 @@ def check_injection(ctx, func, cls, calls, lc, rule='R1'):
 
 
 def run(ctx):
+    from ..frame import check_frame_attrs
+    check_frame_attrs(ctx, 'C03', 'R1')
     P = ctx.prog
     classes = worker_classes(P, internal=False)
     utils = P.module('utils')
